@@ -237,12 +237,12 @@ def code_structure(t, event_final):
 # ---- front-ends that read the generated text back --------------------------------------------------
 import re  # noqa: E402
 
-_SF_CPP = re.compile(r'new SpinFactor\("SF", SF_4Body::(\w+)\s*, (\d), (\d), (\d), (\d)\)')
-_SF_PY = re.compile(r'SpinFactor\("SF", SF_4Body\.(\w+)\s*, (\d), (\d), (\d), (\d)\)')
-_LS_CPP = re.compile(r'new Lineshapes::(\w+)\("([^"]+)",(.*?)(M_\d\d(?:_\d)?), FF::BL2', re.S)
-_LS_PY = re.compile(r'Lineshapes\.(\w+)\("([^"]+)",(.*?)(M_\d\d(?:_\d)?), FF\.BL2', re.S)
-_N_CPP = re.compile(r"spin_factor_list\.back\(\),\s*(\d+)\}\)")
-_N_PY = re.compile(r"spin_factor_list\[-1\],\s*(\d+)\)\)")
+_SF_CPP = re.compile(r'new\s+SpinFactor\(\s*"SF"\s*,\s*SF_4Body::(\w+)\s*,\s*(\d)\s*,\s*(\d)\s*,\s*(\d)\s*,\s*(\d)\s*\)')
+_SF_PY = re.compile(r'SpinFactor\(\s*"SF"\s*,\s*SF_4Body\.(\w+)\s*,\s*(\d)\s*,\s*(\d)\s*,\s*(\d)\s*,\s*(\d)\s*\)')
+_LS_CPP = re.compile(r'new\s+Lineshapes::(\w+)\(\s*"([^"]+)"\s*,(.*?)(M_\d\d(?:_\d)?)\s*,\s*FF::BL2', re.S)
+_LS_PY = re.compile(r'Lineshapes\.(\w+)\(\s*"([^"]+)"\s*,(.*?)(M_\d\d(?:_\d)?)\s*,\s*FF\.BL2', re.S)
+_N_CPP = re.compile(r"spin_factor_list\.back\(\)\s*,\s*(\d+)\s*\}\s*\)")
+_N_PY = re.compile(r"spin_factor_list\[-1\]\s*,\s*(\d+)\s*\)\s*\)")
 
 
 def read_amplitude_code(text, lang):
